@@ -185,13 +185,19 @@ def build_harness(d, race=False):
     return binp
 
 
-def run_harness(binp, args, timeout=1800, env=None):
+def run_harness(binp, args, timeout=1800, env=None, tolerate_crash=False):
+    """Runs the harness. With tolerate_crash a crash of the process (a Go runtime panic / fatal error, typically caused
+    by a data race in the code under test) is returned as a message instead of raised: what was recorded up to
+    then is on disk and can still be judged."""
     e = dict(GOENV)
     e.update(env or {})
     p = subprocess.run([binp] + args, stdout=subprocess.PIPE, stderr=subprocess.STDOUT, text=True, timeout=timeout, env=e)
     if p.returncode != 0:
-        raise ToolFailure("harness %s failed (exit %d):\n%s" % (" ".join(args[:3]), p.returncode, p.stdout[-3000:]))
-    return p.stdout
+        msg = "harness %s failed (exit %d):\n%s" % (" ".join(args[:3]), p.returncode, p.stdout[:1500] + "\n...\n" + p.stdout[-1500:])
+        if tolerate_crash and ("goroutine " in p.stdout or "fatal error" in p.stdout) and "HARNESS-" not in p.stdout:
+            return msg
+        raise ToolFailure(msg)
+    return None
 
 
 def shard_file(path, k):
